@@ -439,6 +439,28 @@ fn fixed_specs() -> Vec<Spec> {
         Neg(bx(Union(vec![]))),
         Minus(bx(List(bx(Lower))), bx(Epsilon)),
         Neg(bx(Neg(bx(w("ab"))))),
+        // regression cases of the repaired defects (see /verif/findings/C19.json)
+        List(bx(Any)),
+        NonEmptyList(bx(Any)),
+        Optional(bx(Any)),
+        Cat(vec![w("a"), Any]),
+        List(bx(Epsilon)),
+        List(bx(w(""))),
+        List(bx(Repeat(bx(Blanks), 0))),
+        SepList(bx(Epsilon), bx(Epsilon)),
+        Cat(vec![w("a"), Union(vec![Epsilon]), w("b")]),
+        Cat(vec![w("a"), RepeatAtMost(bx(Digit), 0), w("b")]),
+        Cat(vec![w("x"), And(bx(List(bx(w("a")))), bx(List(bx(w("b"))))), w("y")]),
+        Cat(vec![NonEmptyList(bx(Epsilon)), w("b")]),
+        Minus(bx(Any), bx(Epsilon)),
+        And(bx(OneBlank), bx(Neg(bx(Inter(vec![Epsilon, ByteFrom(vec![])]))))),
+        Neg(bx(List(bx(Epsilon)))),
+        Neg(bx(And(bx(w("a")), bx(w("b"))))),
+        // known finding: marking on top of a complement
+        Mark(
+            bx(Minus(bx(Or(bx(w("ab")), bx(w("cd")))), bx(w("ab")))),
+            (0..=255u8).map(|x| (x, 1)).collect(),
+        ),
         Utf8,
         JsonString,
         RepeatAtMost(bx(Digit), 3),
